@@ -6,6 +6,7 @@ and key); the real SortableDict / MetadataObject / grid.metadata / grid.column[c
 stepped in lock-step with the reference model in models/orderedmap.py and compared after
 every operation.
 """
+import collections.abc
 import copy
 import json
 
@@ -18,6 +19,23 @@ ABSENT = 'zz'
 MUTATORS = ('set', 'add', 'del', 'pop', 'pop_at', 'popitem', 'setdefault', 'update', 'clear',
             'sort', 'reverse', 'append', 'extend')
 POSITIONAL = ('add', 'pop_at', 'sort', 'reverse')
+
+
+def canon(v):
+    """Type-aware rendering of a stored value: 1, True and 1.0 compare equal in Python but are different
+    values to store (and dump differently), so the comparison with the model must tell them apart."""
+    if isinstance(v, list):
+        return ('list', tuple(canon(x) for x in v))
+    if isinstance(v, collections.abc.Mapping):      # column metadata: a dict and the MetadataObject made from it are the same content
+        return ('map', tuple(sorted((k, canon(x)) for k, x in v.items())))
+    return (type(v).__name__, repr(v))
+
+
+def canon_items(items):
+    return [(k, canon(v)) for k, v in items]
+
+
+EQ_FAMILY = [1, True, 1.0, 0, False, 0.0]      # equal-but-different values (drawn by index)
 
 
 SORT_KEYS = {'parity': lambda k: (ord(k[0]) if k else 0) % 2, 'const': lambda k: 0}
@@ -53,6 +71,8 @@ def mkval(v):
         return {'u': v['cm']}
     if isinstance(v, dict) and 'cml' in v:         # column metadata holding a 3.0-only value
         return {'u': [v['cml']]}
+    if isinstance(v, dict) and 'eqv' in v:         # one of a family of values that compare equal but differ
+        return EQ_FAMILY[v['eqv'] % len(EQ_FAMILY)]
     return v
 
 
@@ -112,6 +132,8 @@ class C16(BaseCheck):
         enabled = [x for x in sorted(set(kinds)) if x == 'add' or k.random() < 0.7]
         kinds = [x for x in kinds if x in enabled]
         p_refuse = k.choice([0.0, 0.1, 0.25])
+        eqfam = cls in ('sd', 'mo', 'gmeta', 'cmeta') and k.random() < 0.25      # values that compare equal but differ in kind
+        bigext = k.random() < 0.15                                                # a few very long extend()/update() calls
         n = k.choice([2, 3, 4, 6, 8, 12, 20, 40]) if tier == 'quick' else k.choice([2, 3, 4, 6, 8, 12, 20, 40, 80])
         ops = []
         for j in range(n):
@@ -121,6 +143,8 @@ class C16(BaseCheck):
                 v = {'list': 100 + j}
             if cls == 'gcols':
                 v = {'cml': 100 + j} if r.random() < 0.2 else {'cm': 100 + j}
+            elif eqfam and r.random() < 0.5:
+                v = {'eqv': r.randrange(6)}
             key = r.choice(keys)
             if op == 'set':
                 ops.append({'op': 'set', 'k': key, 'v': v})
@@ -176,7 +200,7 @@ class C16(BaseCheck):
                     o['replace'] = False
                 ops.append(o)
             elif op == 'extend':
-                m = r.choice([1, 2, 3])
+                m = r.choice([1, 2, 3]) if not bigext else r.choice([3, 31, 32, 33, 48])
                 o = {'op': 'extend', 'pairs': [[r.choice(keys), 1000 * (jj + 1) + j] for jj in range(m)],
                      'as': r.choice(['pairs', 'dict', 'sd'])}
                 if r.random() < p_refuse:
@@ -379,8 +403,8 @@ class C16(BaseCheck):
             gk = [p[0] for p in got]
             if len(set(gk)) != len(gk):
                 return 'dupkeys', {'keys': gk}
-            if got != items:
-                if sorted(got, key=lambda p: p[0]) == sorted(items, key=lambda p: p[0]):
+            if canon_items(got) != canon_items(items):
+                if sorted(canon_items(got)) == sorted(canon_items(items)):
                     return 'order', {'got': got, 'model': items}
                 return 'content', {'got': got, 'model': items}
             if list(m.keys()) != gk or list(iter(m)) != gk or list(m.values()) != [p[1] for p in items]:
@@ -388,7 +412,7 @@ class C16(BaseCheck):
             for j, (k, v) in enumerate(items):
                 if m.at(j) != k or m.value_at(j) is not v and m.value_at(j) != v:
                     return 'observer', {'what': 'at/value_at', 'j': j}
-                if m.index(k) != j or k not in m or m[k] != v or m.get(k) != v:
+                if m.index(k) != j or k not in m or canon(m[k]) != canon(v) or canon(m.get(k)) != canon(v):
                     return 'observer', {'what': 'index/in/getitem', 'k': k}
             for k in list(keys) + [ABSENT]:
                 if k not in dict(map(tuple, items)):
@@ -513,9 +537,9 @@ class C16(BaseCheck):
                     viol = {'clause': 'not-refused', 'detail': {'step': step, 'op': o, 'before': before, 'after': got,
                                                                 'expected': sorted(outs[0][1])}}
                     break
-                match = [x for x in oks if x[1] == got]
+                match = [x for x in oks if canon_items(x[1]) == canon_items(got)]
                 if not match:
-                    same = [x for x in oks if sorted(x[1], key=lambda p: p[0]) == sorted(got, key=lambda p: p[0])]
+                    same = [x for x in oks if sorted(canon_items(x[1])) == sorted(canon_items(got))]
                     clause = 'order' if same else 'content'
                     if len(set(p[0] for p in got)) != len(got):
                         clause = 'dupkeys'
